@@ -55,12 +55,14 @@ func c18Stateful(c *vk.Ctx) {
 	for mw := range harness.C18IsolationNames {
 		for v := 0; v < c.ArgInt("iso_variants", harness.C18IsolationVariants); v++ {
 			iso = append(iso, Job{Harness: "StatefulIsolation", Bound: -1, BudgetS: vk.Pick(c, 60.0, 900.0), FallbackDelay: vk.Pick(c, 3, 4), Params: map[string]int{"mw": mw, "variant": v}})
+			// the same two scripts one after the other: the second session starts when the first has ended
+			iso = append(iso, Job{Harness: "StatefulIsolation", Bound: -1, BudgetS: vk.Pick(c, 60.0, 900.0), FallbackDelay: vk.Pick(c, 3, 4), Params: map[string]int{"mw": mw, "variant": v, "seq": 1}})
 		}
 	}
 	for i := len(iso) - 1; i >= 0; i-- { // longest first
 		jobs = append([]Job{iso[i]}, jobs...)
 	}
-	c.P.Rule = "E1 on the real middlewares around a recording downstream stub. Quota: N in {1,2} (thorough: 3 too) x ALL client histories of length <= 5 (thorough: 6) over {REQ a, REQ b, REQ c, CLOSE a, CLOSE b} (3905 per N for length <= 5), one history per job; oracle = set model computed from the history (forward iff id open or fewer than N open, else exactly one CLOSED naming the id; CLOSE forwarded and frees; |open downstream| <= N at every prefix; downstream receives exactly the forwarded messages in order; one EOSE per forwarded REQ). Unique filters: side in {recv, send} x window in {1,2} x ALL EVENT-id histories of length <= 5 (thorough: 6) over 3 ids (363 each for length <= 5), between non-EVENT messages that must pass unchanged; three-valued oracle per position (must block while among the last `window` distinct ids seen, must pass if never seen, else unclaimed; exactly one OK false with the duplicate: prefix per blocked client EVENT). Schedules: ALL interleavings of every history (unbounded search with state caching). Isolation: two concurrent sessions with colliding ids on ONE middleware value (MaxSubscriptions(1), RecvEventUniqueFilter(2), SendEventUniqueFilter(2); 3 script pairs each) over one shared stub, all schedules within the budget else a delay bound; oracle: each session's outcome equals the model's outcome for that session alone"
+	c.P.Rule = "E1 on the real middlewares around a recording downstream stub. Quota: N in {1,2} (thorough: 3 too) x ALL client histories of length <= 5 (thorough: 6) over {REQ a, REQ b, REQ c, CLOSE a, CLOSE b} (3905 per N for length <= 5), one history per job; oracle = set model computed from the history (forward iff id open or fewer than N open, else exactly one CLOSED naming the id; CLOSE forwarded and frees; |open downstream| <= N at every prefix; downstream receives exactly the forwarded messages in order; one EOSE per forwarded REQ). Unique filters: side in {recv, send} x window in {1,2} x ALL EVENT-id histories of length <= 5 (thorough: 6) over 3 ids (363 each for length <= 5), between non-EVENT messages that must pass unchanged; three-valued oracle per position (must block while among the last `window` distinct ids seen, must pass if never seen, else unclaimed; exactly one OK false with the duplicate: prefix per blocked client EVENT). Schedules: ALL interleavings of every history (unbounded search with state caching). Isolation: two sessions with colliding ids - concurrent, and one after the other has ended - on ONE middleware value (MaxSubscriptions(1), RecvEventUniqueFilter(2), SendEventUniqueFilter(2); 3 script pairs each) over one shared stub, all schedules within the budget else a delay bound; oracle: each session's outcome equals the model's outcome for that session alone"
 	res := runJobs(c, jobs)
 	var unclaimed int64
 	sample := func(r JobResult) {
